@@ -52,6 +52,7 @@ type Succ struct {
 	Dis    []drv.Dis
 	FP     uint64
 	Calls  int
+	Extra  map[string]int
 }
 
 type Result struct {
@@ -185,6 +186,7 @@ type Stats struct {
 	FPs                         map[uint64]struct{}
 	Depth                       int
 	Calls                       int
+	Extra                       map[string]int
 }
 
 // Explore runs the BFS of one family for one property.
@@ -244,14 +246,28 @@ func Explore(r *eng.Run, pool *eng.Pool, f *Family, tier string, deadline time.T
 				}
 				for _, s := range res.Succs {
 					st.Transitions++
+					for k, v := range s.Extra {
+						if st.Extra == nil {
+							st.Extra = map[string]int{}
+						}
+						st.Extra[k] += v
+					}
 					if s.Leaf {
 						st.Leaves++
 					}
 					st.FPs[s.FP] = struct{}{}
 					hist := append(append([]string{}, t.Hist...), s.Letter)
 					for _, dis := range s.Dis {
+						if dis.Has("CAP") {
+							r.Cap(dis.Msg)
+							continue
+						}
 						if dis.Has(r.Prop) {
-							r.Report(eng.Violation{Sig: Signature(dis.Msg), Msg: fmt.Sprintf("%s after %v [%s, %s]", dis.Msg, hist, f.Name, f.Cfgs[ci]),
+							sig := dis.Sig
+							if sig == "" {
+								sig = Signature(dis.Msg)
+							}
+							r.Report(eng.Violation{Sig: sig, Msg: fmt.Sprintf("%s after %v [%s, %s]", dis.Msg, hist, f.Name, f.Cfgs[ci]),
 								Replay: map[string]any{"family": f.Name, "cfg_index": ci, "cfg": f.Cfgs[ci].String(), "prefix": f.Prefix, "history": hist, "expected_vs_observed": dis.Msg}})
 						} else {
 							for _, p := range dis.Props {
